@@ -3,8 +3,11 @@ requested crash point.  Everything that observes or kills lives here, in the har
 
 usage: writer.py '<json spec>'
 spec: {"root": artap root, "db": path, "log": side-log path, "scenario": "serial"|"parallel"|"nsga2"|"epsmoea"|"omopso",
-       "payload": "small"|"big", "inject": null | {"kind":"A","k":int} | {"kind":"B","j":int,"phase":"before"|"after"},
-       "slow_ms": float}
+       "payload": "small"|"big"|"huge", "inject": null | {"kind":"A","k":int} | {"kind":"B","j":int,"phase":"before"|"after"}
+                 | {"kind":"E","j":int} | {"kind":"F","j":int,"phase":"before"|"after"},
+       "slow_ms": float, "model_s": float}
+The harness owns the clock: time.time / perf_counter / monotonic are shifted by an offset that every objective call
+advances by model_s seconds (a model that takes that long to compute, without the test taking that long).
 Side log (os.write, O_APPEND, survives any kind of death): JSON lines TRY/ACK per synchronisation attempt with the
 snapshot that was attempted, ARMED when the store constructor has returned, DONE at a clean end, COUNTS in dry runs.
 """
@@ -16,8 +19,13 @@ import hashlib
 
 spec = json.loads(sys.argv[1])
 LOG = os.open(spec["log"], os.O_WRONLY | os.O_CREAT | os.O_APPEND, 0o644)
-STATE = {"armed": False, "sql": 0, "obj": 0}
+STATE = {"armed": False, "sql": 0, "obj": 0, "fs": 0}
 INJ = spec.get("inject")
+CLOCK = [0.0]
+for _n in ("time", "perf_counter", "monotonic"):
+    def _shifted(_real=getattr(time, _n)):
+        return _real() + CLOCK[0]
+    setattr(time, _n, _shifted)
 
 
 def log(rec):
@@ -26,6 +34,28 @@ def log(rec):
 
 def die():
     os._exit(77)
+
+
+# ---- injector F: count / kill around Python-level file operations on the database file and its companions
+def _wrap_fs(name):
+    real = getattr(os, name)
+
+    def wrapped(*a, **kw):
+        touches = STATE["armed"] and any(isinstance(x, (str, bytes)) and os.fsdecode(x).startswith(spec["db"]) for x in a)
+        if touches:
+            STATE["fs"] += 1
+            me = STATE["fs"]
+            if INJ and INJ["kind"] == "F" and INJ["j"] == me and INJ["phase"] == "before":
+                die()
+        r = real(*a, **kw)
+        if touches and INJ and INJ["kind"] == "F" and INJ["j"] == me and INJ["phase"] == "after":
+            die()
+        return r
+    setattr(os, name, wrapped)
+
+
+for _n in ("remove", "unlink", "rename", "replace", "truncate"):
+    _wrap_fs(_n)
 
 
 # ---- injector B: count / kill around SQL statements and commits (installed before artap is imported)
@@ -84,7 +114,7 @@ from artap.individual import Individual  # noqa: E402
 from artap.datastore import SqliteDataStore  # noqa: E402
 from artap.algorithm import DummyAlgorithm  # noqa: E402
 
-BLOB = ("payload-" * 1024) if spec.get("payload") == "big" else "p"
+BLOB = {"big": "payload-" * 1024, "huge": "payload-" * 16384}.get(spec.get("payload"), "p")
 
 
 def f(x):
@@ -104,6 +134,7 @@ class P(Problem):
             die()
         if spec.get("slow_ms"):
             time.sleep(spec["slow_ms"] / 1000.0)
+        CLOCK[0] += spec.get("model_s") or 0.0
         individual.custom["blob"] = BLOB + str(STATE["obj"])
         return f(individual.vector)
 
@@ -179,6 +210,6 @@ else:
     alg.options["max_population_number"] = gens
     alg.run()
 
-log({"e": "COUNTS", "sql": STATE["sql"], "obj": STATE["obj"]})
+log({"e": "COUNTS", "sql": STATE["sql"], "obj": STATE["obj"], "fs": STATE["fs"]})
 log({"e": "DONE"})
 os._exit(0)
